@@ -129,6 +129,9 @@ structure PrintsParseBack (N : Net Addr Prefix) : Prop where
   back : ∀ a, N.parseAddr (N.toString a) = some a
   emptyInvalid : N.parseAddr [] = none
 
+/-- a forwarding field that IS sent, with exactly one value -/
+def Sent (x : Option (Option (List Bytes))) : Prop := ∃ v, x = some (some [v])
+
 /-- a field that held nil is simply absent once the header map has been copied value by value
     (either way the field is not sent) -/
 def dropNil : Option (Option (List Bytes)) → Option (Option (List Bytes))
